@@ -510,10 +510,6 @@ def _(c):
     S = c.pre
     me = c.self_ref
     yield "is_bound", cf(S, "_app")[me] != 0
-    # F2: mailboxes.id is a global key while the existence test is per app
-    app = cf(S, "_app")[me]
-    yield "id_not_foreign", Implies(And(cf(S, "_mailbox")[me] == 0, c.a.msg.has("mailbox")),
-                                    AN.id_not_foreign(S, hp(S, "AppNamespace._app_id")[app], c.a.msg.val("mailbox").t))
 
 
 misuse(c, "second_open", "only one open per connection", lambda c: cf(c.pre, "_mailbox")[c.self_ref] != 0, OPEN_MOD)
@@ -576,6 +572,17 @@ def _(c):
     yield from event_post(c)
 
 
+@c.raises("IntegrityError", "foreign_id", tags=["C06", "C17"])
+def _(c):
+    # F2 (open finding): the id is another app's mailbox; the handler dies with the failed INSERT's transaction open
+    S0, S1 = c.pre, c.post
+    me = c.self_ref
+    app = cf(S0, "_app")[me]
+    yield "when", And(cf(S0, "_mailbox")[me] == 0, c.a.msg.has("mailbox"),
+                      AN.foreign_id(S0, hp(S0, "AppNamespace._app_id")[app], c.a.msg.val("mailbox").t))
+    yield "nothing_stored", unchanged(c, [k for k in OPEN_MOD if k.startswith("ch.")] + ["out"])
+
+
 @c.raises("Error", "crowded", tags=["C05"], fields={"_explain": "crowded"})
 def _(c):
     S0, S1 = c.pre, c.post
@@ -583,7 +590,8 @@ def _(c):
     app = cf(S0, "_app")[me]
     mid = c.a.msg.val("mailbox").t
     sub = sub_ctx(c, app, open_args(c, mid))
-    yield "when", And(cf(S0, "_mailbox")[me] == 0, c.a.msg.has("mailbox"), AN.crowded(S1, mid))
+    yield "when", And(cf(S0, "_mailbox")[me] == 0, c.a.msg.has("mailbox"), Not(AN.foreign_id(S0, hp(S0, "AppNamespace._app_id")[app], mid)),
+                      AN.crowded(S1, mid))
     # C05: the refused side is not subscribed and is sent nothing
     yield "crowded_not_subscribed", And(cf(S1, "_mailbox")[me] == 0, Not(cf(S1, "_listening")[me]),
                                         LS(S1) == LS(S0), unchanged(c, ["out"]))
@@ -693,9 +701,6 @@ def _(c):
     S = c.pre
     me = c.self_ref
     yield "is_bound", cf(S, "_app")[me] != 0
-    app = cf(S, "_app")[me]
-    yield "id_not_foreign", Implies(And(close_valid(c), cf(S, "_mailbox")[me] == 0),
-                                    AN.id_not_foreign(S, hp(S, "AppNamespace._app_id")[app], close_target(c)))
 
 
 misuse(c, "second_close", "only one close per connection", lambda c: cf(c.pre, "_did_close")[c.self_ref], CLOSE_H_MOD)
@@ -718,11 +723,25 @@ def _(c):
     yield from event_post(c)
 
 
+def close_foreign(c):
+    S0 = c.pre
+    me = c.self_ref
+    app = cf(S0, "_app")[me]
+    return And(close_valid(c), cf(S0, "_mailbox")[me] == 0,
+               AN.foreign_id(S0, hp(S0, "AppNamespace._app_id")[app], close_target(c)))
+
+
+@c.raises("IntegrityError", "foreign_id", tags=["C06", "C17"])
+def _(c):
+    yield "when", close_foreign(c)
+    yield "nothing_stored", unchanged(c, [k for k in CLOSE_H_MOD if k.startswith("ch.") or k.startswith("us.")] + ["out"])
+
+
 @c.raises("Error", "crowded", tags=["C05"], fields={"_explain": "crowded"})
 def _(c):
     S0, S1 = c.pre, c.post
     me = c.self_ref
-    yield "when", And(close_valid(c), cf(S0, "_mailbox")[me] == 0, AN.crowded(S1, close_target(c)))
+    yield "when", And(close_valid(c), cf(S0, "_mailbox")[me] == 0, Not(close_foreign(c)), AN.crowded(S1, close_target(c)))
     yield "crowded_not_subscribed", And(cf(S1, "_mailbox")[me] == 0, LS(S1) == LS(S0), unchanged(c, ["out"]))
     for it in event_post(c):
         yield it[0], it[1]
@@ -741,23 +760,6 @@ HANDLERS = {"ping": "handle_ping", "bind": "handle_bind", "list": "handle_list",
             "claim": "handle_claim", "release": "handle_release", "open": "handle_open", "add": "handle_add",
             "close": "handle_close"}
 NEEDS_BIND = [t for t in HANDLERS if t not in ("ping", "bind")]
-
-
-@c.requires
-def _(c):
-    # F2 (open finding): the ids named by open/close are not ids of another app's mailbox
-    S0 = c.pre
-    me = c.self_ref
-    msg = c.a.payload
-    app = cf(S0, "_app")[me]
-    a = hp(S0, "AppNamespace._app_id")[app]
-    ty = msg.val("type").t
-    sub = Ctx(S0, S0, {"msg": msg, "server_rx": VZ(RealVal(0), "real")}, me, "WebSocketServer")
-    yield "F2_excluded", Implies(And(msg.has("type"), app != 0), And(
-        Implies(And(ty == S("open"), cf(S0, "_mailbox")[me] == 0, msg.has("mailbox")),
-                AN.id_not_foreign(S0, a, msg.val("mailbox").t)),
-        Implies(And(ty == S("close"), close_valid(sub), cf(S0, "_mailbox")[me] == 0),
-                AN.id_not_foreign(S0, a, close_target(sub)))))
 
 
 def err_frame(fr, explain, msg):
